@@ -325,6 +325,31 @@ for _nm, _cs in (("loop_weak_and_shift", [C("B", "A", "eo", "ti", weak=True), C(
         until=3, max_loop=4, groups=G1, max_budget=0,
         sims=[E("A", group="g", init_event=0, emit=[0, 0, None] * 3), E("B", group="g", emit_default=0)],
         conns=[C("A", "B", "eo", "ti")] + _cs)
+# time-based / hybrid simulators whose first step is moved by set_initial_event (it REPLACES the
+# default step at 0)
+S["init_event_T_H"] = dict(until=5, sims=[T("M", init_event=3), H("N", init_event=2, next_default=2), T("X", 2)],
+                           conns=[C("M", "N", "po", "mi")])
+# a group member that is triggered only through a weak connection (its first step of a time step
+# is sub-step 1) and has a non-trigger input from a slower simulator outside all groups
+S["weak_triggered_outside_input"] = dict(
+    until=2, groups=G1,
+    sims=[T("Sl"), E("L", group="g", init_event=0, next=[1], emit_default=0), H("Hh", group="g", next=[None, None, None])],
+    conns=[C("Sl", "Hh", "po", "mi"), C("L", "Hh", "eo", "ti", weak=True)])
+# a settling loop whose member is fed through TWO hops (U -> V -> A); U answers slowly while
+# an unconnected simulator finishes steps
+S["loop_behind_two_hops"] = dict(
+    until=2, max_loop=4, groups=G1,
+    sims=[E("U", init_event=0, next=[1], emit_default=0), E("V", emit_default=0),
+          E("A", group="g", emit=[0, None] * 3), E("B", group="g", emit_default=0), T("X")],
+    conns=[C("U", "V", "eo", "ti"), C("V", "A", "eo", "ti"), C("A", "B", "eo", "ti"),
+           C("B", "A", "eo", "ti", weak=True)])
+# a long run: a source that (when synchronous and started first, lazy stepping off) performs all
+# its steps before the loop members have started, so that their step queue holds a dozen entries
+# while the loop's sub-steps are inserted in front of them
+S["long_queue_loop"] = dict(
+    until=12, max_loop=4, groups=G1, max_budget=0,
+    sims=[T("So"), E("A", group="g", emit=[0, None] * 12), E("B", group="g", emit_default=0)],
+    conns=[C("So", "A", "po", "ti"), C("A", "B", "eo", "ti"), C("B", "A", "eo", "ti", weak=True)])
 # loops on two levels of nested groups: neither makes max_loop iterations, together they do
 S["loop_two_levels"] = dict(
     until=1, max_loop=3, groups={"g": None, "h": "g"}, max_budget=0,
